@@ -69,23 +69,41 @@ fn quotes_only_delimit_labels(s: &str) -> bool {
     !inq
 }
 
-/// oracle for the rejection clause, on texts without quotes and comments: a terminating `;` must exist and
-/// the parentheses before it must be balanced and never close more than were opened
+/// oracle for the rejection clause, for EVERY text, under the plain lexical reading of the format: a double quote (outside a
+/// bracket comment) opens or closes a quoted section, `[` (outside a quoted section) opens a comment that the next `]`
+/// closes; parentheses and semicolons inside a quoted section or a comment are not structural.  A terminating structural
+/// `;` must exist and the structural parentheses before it must be balanced and never close more than were opened.
+/// (This reading does not look at the parser's fields at all: a text it calls unbalanced must be rejected whatever the
+/// parser thinks it is reading.)
 fn must_reject(s: &str) -> Option<&'static str> {
-    if s.contains('"') || s.contains('[') || s.contains(']') {
-        return None;
-    }
-    let Some(pos) = s.find(';') else { return Some("no-semicolon") };
+    let (mut inq, mut inc) = (false, false);
     let mut depth: i64 = 0;
-    for c in s[..pos].chars() {
-        if c == '(' {
-            depth += 1;
-        } else if c == ')' {
-            depth -= 1;
-            if depth < 0 {
-                return Some("unbalanced-close");
-            }
+    let mut terminated = false;
+    for c in s.chars() {
+        if inc {
+            if c == ']' { inc = false; }
+            continue;
         }
+        if inq {
+            if c == '"' { inq = false; }
+            continue;
+        }
+        match c {
+            '"' => inq = true,
+            '[' => inc = true,
+            '(' => depth += 1,
+            ')' => {
+                depth -= 1;
+                if depth < 0 {
+                    return Some("unbalanced-close");
+                }
+            }
+            ';' => { terminated = true; break; }
+            _ => {}
+        }
+    }
+    if !terminated {
+        return Some("no-semicolon");
     }
     if depth != 0 {
         return Some("unbalanced-open");
@@ -233,7 +251,18 @@ pub fn mutate(rng: &mut Rng, s: &str) -> String {
                 v.insert(i, *rng.pick(&toks));
             }
             4 => {
-                v.truncate(i);
+                if rng.chance(1, 2) {
+                    v.truncate(i);
+                } else {
+                    // a double quote directly after a branch length (and sometimes a second one later)
+                    if let Some(pos) = (0..v.len()).filter(|k| *k > 0 && v[*k - 1].is_ascii_digit() && (v[*k] == ',' || v[*k] == ')')).nth(i % 3) {
+                        v.insert(pos, '"');
+                        if rng.chance(2, 3) && pos + 2 < v.len() {
+                            let j = pos + 2 + rng.below(v.len() - pos - 2);
+                            v.insert(j, '"');
+                        }
+                    }
+                }
             }
             _ => {
                 let toks = ['(', ')', ',', ';', ':', '\\', '"', ' ', '['];
@@ -347,6 +376,9 @@ pub fn run(thorough: bool, seed: u64, driver: &str, rep: &mut Report) {
         ";", "A;", ",;", ");", "(A)B,C;", "(A)(B);", "(A,B)C(D);", "(A,B);", "((A,B),C)R:1;", "(A:1e3,B:.5,C:5.)[c];x", "(\"a (b\",c);",
         "(A,B)", "((A,B);", "(A,B));", "( A , B ) ;", "(A:1 2,B);", "(A[x]y[z],B);", "(A:nan,B:inf,C:-Infinity,D:+1);", "(,);", "();", "(:1,:2):3;",
         "A:1;", "[c];", "\"q\";", ":;", "(A;B);", "(A,B;", "a;b;", "(a\u{a0}b,c);", "(a\u{200b}b,c);", "(A:1:2,B);", "(A::,B);", "(A:1e,B);",
+        // found while proving the label-domain theorem for texts WITH quotes (the proof forced the hypothesis "no quote is read
+        // inside a branch length"): a quote after a length toggles the quote flag without being stored
+        "(a:1\"(,)\",c));", "(a:1\",(b\",c);", "(a:1\",b\");", "(a:1\"(,)\",c);", "(a:\"1,b);", "(a:1\"\",b);", "(a:1\"[x],b\");",
     ];
     let mut texts: Vec<String> = corpus.iter().map(|s| s.to_string()).collect();
     for lex in ["infinity", "INFINITY", "-Infinity", "+inf", "nan", "-NaN", "1e400", "1e-400", "0x10", "1_0", "١", "1e+5", "1.e5", ".e5", "infinit", "1e5e5"] {
